@@ -1,4 +1,6 @@
 mod c13;
+mod c14;
+mod c18;
 mod check;
 mod corpus;
 mod e1;
